@@ -156,6 +156,9 @@ class Runner:
         tl, pb = core.tracklist, core.playback
         k = op[0]
         if k == "add":
+            if len(op) > 3 and op[3] == "uris":
+                # the same request by URI: looked up in the library, one track per requested URI
+                return ("tlts", tl.add(uris=[env.uri_of(i) for i in op[1]], at_position=op[2]))
             # a negative index stands for an argument that is not a Track
             return ("tlts", tl.add(tracks=[env.track(i) if i >= 0 else f"not-a-track{i}" for i in op[1]],
                                    at_position=op[2]))
